@@ -203,7 +203,7 @@ func (e *c02Env) truthy(k string) bool {
 }
 
 // callU appends what template .u renders on the callee's data:
-// [{$a ?: 'n'}|{$b ?: 'n'}|{$k ?: 'n'}{let $a: 'L'/}{$a}]
+// [{$a ?: 'n'}|{$b ?: 'n'}|{$k ?: 'n'}{let $a: 'L'/}{$a}<what .w prints for a, 'W', k>]
 func (e *c02Env) callU(callee *c02Env) {
 	callee.push()
 	callee.out = append(callee.out, '[')
@@ -220,7 +220,21 @@ func (e *c02Env) callU(callee *c02Env) {
 			callee.out = append(callee.out, '|')
 		}
 	}
-	callee.out = append(callee.out, "L]"...)
+	callee.out = append(callee.out, "L<"...)
+	for _, k := range []string{"a", "b", "k"} {
+		v, ok := callee.lookup(k)
+		if k == "b" {
+			v, ok = data.String("W"), true // the param of the second call
+		}
+		_, isNull := v.(data.Null)
+		_, isUndef := v.(data.Undefined)
+		if !ok || isNull || isUndef {
+			callee.out = append(callee.out, 'n')
+		} else {
+			callee.out = append(callee.out, v.String()...)
+		}
+	}
+	callee.out = append(callee.out, ">]"...)
 	e.out = append(e.out, callee.out...)
 }
 
@@ -381,7 +395,10 @@ func (e *c02Env) run(ns []*pNode) {
 	}
 }
 
-const c02Callee = "/** @param? a\n @param? b\n @param? k */\n{template .u autoescape=\"false\"}\n[{$a ?: 'n'}|{$b ?: 'n'}|{$k ?: 'n'}{let $a: 'L'/}{$a}]\n{/template}\n"
+// (.u calls on with data="all": the second level sees .u's data and params - a param shadowing a
+// data key included - but not .u's lets)
+const c02Callee = "/** @param? a\n @param? b\n @param? k */\n{template .u autoescape=\"false\"}\n[{$a ?: 'n'}|{$b ?: 'n'}|{$k ?: 'n'}{let $a: 'L'/}{$a}{call .w data=\"all\"}{param b: 'W' /}{/call}]\n{/template}\n" +
+	"/** @param? a\n @param? b\n @param? k */\n{template .w autoescape=\"false\"}\n<{$a ?: 'n'}{$b ?: 'n'}{$k ?: 'n'}>\n{/template}\n"
 
 // H_program: a template body of at most `budget` nodes and nesting depth `depth` chosen through
 // the command grammar; data: a symbolic bool, b symbolic from {"p","q"}, l a list of length
